@@ -12,7 +12,7 @@ LEVEL = "exploration"
 RULE = ("Cases: an initial collection (absent, empty, unsorted, with repeats incl. 1/1.0/True; for the map a dict, a list of pairs "
         "with repeated keys, an empty list or a generator) over ints (incl. >2**53), floats (incl. +-inf, -0.0) mixed, then a "
         "history of <=40 operations (set: add/discard/remove/pop/in/clear; map: store/delete/lookup/get/pop/popitem/setdefault/"
-        "update/in/clear; store/setdefault/update of a key the map cannot order) plus foreign-typed probes ('a', None, (1,), b'x', 1j, NaN). After every step iteration must be strictly "
+        "update/in/clear; store/setdefault/update of a key the map cannot order) plus foreign-typed probes ('a', None, (1,), b'x', 1j, NaN). After every step (in a third of the histories and in the read-op-read parts: only through the history's own point reads, and after the last step) iteration must be strictly "
         "ascending and content, length, membership, lookup and KeyError behaviour equal a builtin set/dict driven by the same "
         "operations. Non-trivial: initial collection empty or with repeats, or >=3 successful mutations with mixed int/float "
         "values, or a foreign probe on a non-empty structure. Distinct = distinct case JSON.")
